@@ -1,13 +1,134 @@
+/-
+  C13 — integer range containers behave exactly like their enumerated values.
+  Property theorems only; proofs by reference to GfsProofs.
+-/
 import GfsModel.Ranges
 import GfsModel.FrameSet
 import GfsSpec.Enum
-import GfsSpec.Denote
+import GfsSpec.WF
+import GfsProofs.RngLemmas
+import GfsProofs.BlocksLemmas
+import GfsProofs.StrParse
+import GfsSpec.Grammar
 
 namespace Gfs.Props.C13
-open Gfs
+open Gfs Gfs.Spec
 
 /-- NewInclusiveRange never stores a zero step. -/
 theorem C13_mkRng_step_ne_zero (s e st : Int) : (mkRng s e st).step ≠ 0 := by
   unfold mkRng; simp only; split <;> (try split) <;> omega
+
+/-- The hypothesis of the property: the step's sign agrees with the direction, or is zero. -/
+def Agrees (s e st : Int) : Prop := st = 0 ∨ (s ≤ e ∧ 0 < st) ∨ (e ≤ s ∧ st < 0)
+
+private theorem agrees_wellSigned (s e st : Int) (h : Agrees s e st) : WellSigned (mkRng s e st) := by
+  unfold Agrees at h
+  unfold WellSigned mkRng
+  simp only
+  rcases h with h | h | h
+  · subst h
+    by_cases hse : s ≤ e
+    · simp [hse]
+    · simp [hse]; omega
+  · have : st ≠ 0 := by omega
+    simp [this]; omega
+  · have : st ≠ 0 := by omega
+    simp [this]; omega
+
+/-- C13 (a): for every start, end and step whose sign agrees with the direction (or is
+    zero) — all integers, no bound — the range enumerates `start, start±|step|, …` up to the
+    last value not past `end`, and length, effective end, min, max, membership,
+    value-at-index and index-of-value all agree with that enumeration. -/
+theorem C13_block (s e st : Int) (h : Agrees s e st) :
+    let r := mkRng s e st
+    let L := enum s e r.step.natAbs
+    r.iter = L ∧ r.len = L.length ∧ L.head? = some s ∧ L.getLast? = some r.fin ∧ L.Nodup ∧
+    r.min = listMin L ∧ r.max = listMax L ∧
+    (∀ v, r.contains v = true ↔ v ∈ L) ∧
+    (∀ i, r.value i = valueAt L i) ∧
+    (∀ v, r.index v = idxOf L v) := by
+  intro r L
+  have hw : WellSigned r := agrees_wellSigned s e st h
+  have hL : L = rngEnum r := by
+    simp only [L, rngEnum, r, mkRng]
+  rw [hL]
+  exact ⟨Proofs.rng_iter r hw, Proofs.rng_len r hw, Proofs.rng_head r hw, Proofs.rng_fin r hw,
+    Proofs.rng_nodup r hw, Proofs.rng_min r hw, Proofs.rng_max r hw,
+    Proofs.rng_contains r hw, Proofs.rng_value r hw, Proofs.rng_index r hw⟩
+
+/-- non-vacuity: a stepped descending range meets the hypothesis and enumerates as expected -/
+example : Agrees 10 1 (-3) ∧ (mkRng 10 1 (-3)).iter = [10, 7, 4, 1] := by
+  refine ⟨Or.inr (Or.inr ⟨by omega, by omega⟩), by decide⟩
+
+/-- C13 (b): appending a range uniquely to a well-formed multi-range — whatever the sign of
+    the step given — keeps it well formed and appends exactly the new enumeration minus
+    the values already present. -/
+theorem C13_append (bl : Blocks) (h : WF bl) (s e st : Int) :
+    WF (Blocks.appendUnique bl s e st) ∧
+    Blocks.iter (Blocks.appendUnique bl s e st) = appendU (Blocks.iter bl) s e st := by
+  have h1 := Proofs.appendUnique_spec bl h s e st
+  refine ⟨h1.1, ?_⟩
+  rw [Proofs.blocks_iter _ h1.1, Proofs.blocks_iter _ h, h1.2]
+
+/-- The container reached by a history of AppendUnique calls. -/
+def runHist (hist : List (Int × Int × Int)) (bl : Blocks) : Blocks :=
+  hist.foldl (fun bl t => Blocks.appendUnique bl t.1 t.2.1 t.2.2) bl
+
+private theorem runHist_spec (hist : List (Int × Int × Int)) (bl : Blocks) (h : WF bl) :
+    WF (runHist hist bl) ∧ Blocks.iter (runHist hist bl) = appendHist (Blocks.iter bl) hist := by
+  induction hist generalizing bl with
+  | nil => exact ⟨h, rfl⟩
+  | cons t ts ih =>
+    obtain ⟨s, e, st⟩ := t
+    have h1 := C13_append bl h s e st
+    have h2 := ih (Blocks.appendUnique bl s e st) h1.1
+    refine ⟨h2.1, ?_⟩
+    show Blocks.iter (runHist ts (Blocks.appendUnique bl s e st)) = _
+    rw [h2.2, h1.2]
+    rfl
+
+/-- C13 (c): every finite history of AppendUnique calls on an empty container — any
+    length, any coordinates, any step signs — yields the concatenation of the appended
+    enumerations with later duplicates removed, and a well-formed container. -/
+theorem C13_history (hist : List (Int × Int × Int)) :
+    WF (runHist hist []) ∧ Blocks.iter (runHist hist []) = appendHist [] hist := by
+  have := runHist_spec hist [] Proofs.wf_nil
+  simpa [Blocks.iter] using this
+
+/-- C13: the accessors of any container reached by such a history are views of that one
+    duplicate-free list (all indices, all integers). -/
+theorem C13_history_views (hist : List (Int × Int × Int)) :
+    let bl := runHist hist []
+    let L := appendHist [] hist
+    L.Nodup ∧ Blocks.len bl = L.length ∧
+    (∀ v, Blocks.contains bl v = true ↔ v ∈ L) ∧
+    (∀ i, Blocks.value bl i = valueAt L i) ∧
+    (∀ v, Blocks.index bl v = idxOf L v) ∧
+    (bl ≠ [] → L.head? = some (Blocks.start bl) ∧ L.getLast? = some (Blocks.fin bl) ∧
+       Blocks.min bl = listMin L ∧ Blocks.max bl = listMax L) := by
+  intro bl L
+  obtain ⟨hwf, hit⟩ := C13_history hist
+  have hL : L = Proofs.blocksEnum bl := by
+    rw [← Proofs.blocks_iter bl hwf]; exact hit.symm
+  rw [hL]
+  exact ⟨Proofs.blocks_nodup bl hwf, Proofs.blocks_len bl hwf, Proofs.blocks_contains bl hwf,
+    Proofs.blocks_value bl hwf, Proofs.blocks_index bl hwf,
+    fun hne => ⟨Proofs.blocks_start bl hwf hne, Proofs.blocks_fin bl hwf hne,
+      Proofs.blocks_min bl hwf hne, Proofs.blocks_max bl hwf hne⟩⟩
+
+/-- C13 (d): the printed form of any container reached by AppendUnique calls parses back,
+    as a frame range, to the same values (numbers fitting an int). -/
+theorem C13_print_parse (hist : List (Int × Int × Int)) (hne : runHist hist [] ≠ [])
+    (hfit : ∀ r ∈ runHist hist [], Fits r.start ∧ Fits r.fin ∧ Fits r.step) :
+    ∃ fs, FrameSet.parse (Blocks.str (runHist hist [])) = .ok fs ∧
+      fs.frames = appendHist [] hist := by
+  obtain ⟨hwf, hit⟩ := C13_history hist
+  obtain ⟨fs, hp, hf⟩ := Proofs.str_parse (runHist hist []) hwf hne hfit
+  refine ⟨fs, hp, ?_⟩
+  rw [hf, ← Proofs.blocks_iter _ hwf]
+  exact hit
+
+/-- non-vacuity: the repaired defect D1 — a wrong-signed step after another range -/
+example : Blocks.iter (runHist [(20, 20, 1), (10, 1, 2)] []) = [20, 10, 8, 6, 4, 2] := by decide
 
 end Gfs.Props.C13
